@@ -28,6 +28,7 @@ type Program struct {
 	specSigs  map[string]SpecSig
 	usedSpec  map[string]bool
 	prelude   string
+	preludes  map[string]string
 	tables    map[*ssa.Global]Value
 	tablesOK  map[*ssa.Global]bool
 	funcs     map[string]*ssa.Function // by short name
@@ -95,24 +96,51 @@ func loadProgram(repo, specDir, mirrorDir string, patterns []string, dir string)
 			return nil, err
 		}
 	}
-	// prelude
-	var sb strings.Builder
-	files := append([]string{"builtin.smt2"}, p.contracts.Imports...)
-	seen := map[string]bool{}
-	for _, f := range files {
-		if seen[f] {
-			continue
+	// preludes: one per package (builtin + the spec files its contract file imports); signatures of
+	// all spec files are known globally
+	loaded := map[string]string{}
+	load := func(f string) (string, error) {
+		if t, ok := loaded[f]; ok {
+			return t, nil
 		}
-		seen[f] = true
 		data, err := os.ReadFile(filepath.Join(specDir, f))
 		if err != nil {
-			return nil, fmt.Errorf("spec file %s: %v", f, err)
+			return "", fmt.Errorf("spec file %s: %v", f, err)
 		}
-		sb.WriteString("; ---- " + f + "\n")
-		sb.Write(data)
-		sb.WriteString("\n")
+		loaded[f] = string(data)
 		p.parseSpecSigs(string(data))
+		return string(data), nil
 	}
+	p.preludes = map[string]string{}
+	mk := func(files []string) (string, error) {
+		var sb strings.Builder
+		seen := map[string]bool{}
+		for _, f := range append([]string{"builtin.smt2"}, files...) {
+			if seen[f] {
+				continue
+			}
+			seen[f] = true
+			t, err := load(f)
+			if err != nil {
+				return "", err
+			}
+			sb.WriteString("; ---- " + f + "\n" + t + "\n")
+		}
+		return sb.String(), nil
+	}
+	for pkg, files := range p.contracts.ImportsByPkg {
+		t, err := mk(files)
+		if err != nil {
+			return nil, err
+		}
+		p.preludes[pkg] = t
+	}
+	var sb strings.Builder
+	t0, err := mk(nil)
+	if err != nil {
+		return nil, err
+	}
+	sb.WriteString(t0)
 	p.prelude = sb.String()
 	return p, nil
 }
@@ -128,6 +156,7 @@ var defFunRe = regexp.MustCompile(`(?m)^\((define-fun|declare-fun|define-fun-rec
 
 // parseSpecSigs extracts the signatures of define-fun / declare-fun commands.
 func (p *Program) parseSpecSigs(src string) {
+	src = regexp.MustCompile(`(?m);.*$`).ReplaceAllString(src, "")
 	sorts := map[string]string{}
 	for _, m := range regexp.MustCompile(`(?m)^\(define-sort\s+(\S+)\s+\(\)\s+(.+)\)\s*$`).FindAllStringSubmatch(src, -1) {
 		sorts[m[1]] = strings.TrimSpace(m[2])
@@ -813,4 +842,12 @@ func (p *Program) checkWriters(prop string) *Unit {
 		return nil
 	}
 	return &Unit{Name: "writers-scan", Kind: "lemma", Props: []string{prop}, VC: newVC("writers"), Err: strings.Join(errs, "; ")}
+}
+
+// preludeFor returns the SMT prelude for a unit of the given package.
+func (p *Program) preludeFor(pkg string) string {
+	if t, ok := p.preludes[pkg]; ok {
+		return t
+	}
+	return p.prelude
 }
